@@ -455,7 +455,7 @@ fn next_choices(adv: &[u16]) -> Vec<u16> {
 pub fn run(ctx: &Arc<Ctx>) {
     refmodels::selftest::run(&["sm3", "sm2"]).unwrap_or_else(|e| ctx.machinery_error(format!("reference self-test failed: {}", e)));
     let n = sm2::params().n.clone();
-    ctx.set_rule("stateright BFS over all man-in-the-middle choice sequences on the real Exchange objects: R_A->B, R_B->A in {pass, re-randomised Jacobian representation, affine as decoded from the wire, -R, 2R, G, off-curve, point at infinity}, S_B->A, S_A->B in {pass, first bit flipped, last bit flipped, all-zero}, R_A handed to exchange_4 in the 6 point choices; every subset of the messages altered x every kind, per configuration (key pairs {Annex, (1,n-2), (n-2,2), seeded} x IDs x klen). Honest paths additionally for every klen 1..=200, klen in {8160, 8191, 8192, 8193, 8225, 65537} and the nonce product r_A x r_B; every single-bit flip of S_B and of S_A on otherwise honest runs; keys crafted so that the peer's P + [x-bar]R' is the point at infinity for an adversary-chosen R' (the shared point is O: both roles must report failure, also against an S_B forged for a zero point). Invariant: honest deliveries (incl. re-randomised) give both sides the reference K (w=127), S_B, S_A (one-byte tags) and exchange_4 = true; any altered message makes the receiving step fail; off-curve points are refused by the step that receives them; a panic is a violation. ephemeral scalars fixed through the RNG seam. Honest runs with a static key equal to x-bar(R)*r (the peer's P + [x-bar]R is a doubling). Sessions: every sequence of <= 3 (thorough 4) runs over {honest, honest with roles swapped, abandoned after exchange_2, S_B altered, off-curve R_A} on one pair of Exchange objects - every honest run must yield the standard's values for its own ephemeral scalars.");
+    ctx.set_rule("stateright BFS over all man-in-the-middle choice sequences on the real Exchange objects: R_A->B, R_B->A in {pass, re-randomised Jacobian representation, affine as decoded from the wire, -R, 2R, G, off-curve, point at infinity}, S_B->A, S_A->B in {pass, first bit flipped, last bit flipped, all-zero}, R_A handed to exchange_4 in the 6 point choices; every subset of the messages altered x every kind, per configuration (key pairs {Annex, (1,n-2), (n-2,2), seeded} x IDs x klen). Honest paths additionally for every klen 1..=200 (thorough 600), klen in {8160, 8191, 8192, 8193, 8225, 65537} and the nonce product r_A x r_B; every single-bit flip of S_B and of S_A on otherwise honest runs; keys crafted so that the peer's P + [x-bar]R' is the point at infinity for an adversary-chosen R' (the shared point is O: both roles must report failure, also against an S_B forged for a zero point). Invariant: honest deliveries (incl. re-randomised) give both sides the reference K (w=127), S_B, S_A (one-byte tags) and exchange_4 = true; any altered message makes the receiving step fail; off-curve points are refused by the step that receives them; a panic is a violation. ephemeral scalars fixed through the RNG seam. Honest runs with a static key equal to x-bar(R)*r (the peer's P + [x-bar]R is a doubling). Sessions: every sequence of <= 3 (thorough 4) runs over {honest, honest with roles swapped, abandoned after exchange_2, S_B altered, off-curve R_A} on one pair of Exchange objects - every honest run must yield the standard's values for its own ephemeral scalars.");
     let mut g = SplitMix::new(ctx.seed, "c15");
     let annex = ("81EB26E941BB5AF16DF116495F90695272AE2CD63D6C4AE1678418BE48230029", "785129917D45A9EA5437A59356B82338EAADDA6CEB199088F14AE10DEFA229B5", "D4DE15474DB74D06491C440D305E012400990F3E390C7E87153C12DB2EA60BB3", "7E07124814B309489125EAED101113164EBF0F3458C5BD88335C1F9D596243D6");
     let seeded: Vec<BigUint> = (0..4).map(|_| g.nonzero_below(&(&n - 2u32))).collect();
@@ -490,7 +490,7 @@ pub fn run(ctx: &Arc<Ctx>) {
     }
     // ---- honest paths: every klen, nonce product
     let mut cases: Vec<Case> = Vec::new();
-    for klen in 1..=200usize {
+    for klen in 1..=ctx.tier.pick(200usize, 600) {
         let (da, db, ra, rb, ida, idb) = &keypairs[klen % keypairs.len()];
         cases.push(Case { cfg: Config { da: da.clone(), db: db.clone(), ida: ida.clone(), idb: idb.clone(), klen, ra: ra.clone(), rb: rb.clone(), cancel_a: None, cancel_b: None }, adv: vec![(klen % 2) as u16, ((klen / 2) % 2) as u16, 0, 0, ((klen / 4) % 2) as u16], tag: format!("honest/klen%32={}", if klen % 32 == 0 { "0" } else { "!0" }) });
     }
@@ -553,7 +553,7 @@ pub fn run(ctx: &Arc<Ctx>) {
     run_cases(ctx, &cases, 4, eval);
     // ---- sessions: every sequence of <= L runs over the five run kinds on ONE pair of Exchange objects
     {
-        let depth = ctx.tier.pick(3usize, 4);
+        let depth = ctx.tier.pick(3usize, 5);
         let (st, hists) = explore_collect(vec![vec![0u16], vec![1u16]], Box::new(move |h: &[u16]| if h.len() - 1 < depth { (0..RUN_KINDS.len() as u16).collect() } else { vec![] }));
         let sessions: Vec<SessCase> = hists.iter().filter(|h| h.len() > 1).map(|h| SessCase::Session(Session { cfg: cfgs[(h[0] as usize * klens.len()) % cfgs.len()].clone(), runs: h[1..].iter().map(|x| *x as u8).collect(), build_pair: false })).collect();
         // the convenience constructor: both objects from build_ex_pair with explicit, different IDs
